@@ -119,6 +119,7 @@ type c10Data struct {
 	Prefill  int      `json:"prefill"`
 	LongKeys bool     `json:"long_keys,omitempty"`
 	Collide  bool     `json:"colliding_keys,omitempty"`
+	Neutral  bool     `json:"content_neutral_whole_op,omitempty"`
 	Ops      []*c10Op `json:"ops"`
 	Label    string   `json:"label,omitempty"`
 	Waiting  string   `json:"waiting,omitempty"`
@@ -428,7 +429,7 @@ func init() {
 	// whole-structure operations next to writers: judged for "blocks forever" only (what such an
 	// operation returns while the structure changes under it, and races entered through it, are
 	// outside the statement)
-	register(&Scenario{Prop: "C10", Name: "whole", MaxSteps: 300000, Body: c10WholeBody, After: c10MethodsAfter, RacePkgs: racePkgs, RaceIgnore: regexp.MustCompile(`.`), Rare: 4})
+	register(&Scenario{Prop: "C10", Name: "whole", MaxSteps: 300000, Body: c10WholeBody, After: c10WholeAfter, RacePkgs: racePkgs, RaceIgnore: regexp.MustCompile(`.`), Rare: 4})
 	cells := c10Cells()
 	register(&Scenario{Prop: "C10", Name: "methods", MaxSteps: 300000, Body: c10MethodsBody, After: c10MethodsAfter, Cells: len(cells), RacePkgs: racePkgs, RaceIgnore: ignore})
 }
@@ -652,9 +653,24 @@ func c10WholeBody(rc *RunCtx) {
 	obj := t.New(0)
 	populate(obj, 3, 11)
 	rt := reflect.TypeOf(obj)
+	// Is the operation content-neutral when run alone (Sort, KeyArray, ToString, enumerations
+	// are; ToObject, PutAll are not)? If so, it must be content-neutral next to writers too:
+	// what the point operations around it see, and what the structure holds afterwards, must be
+	// explained by the point operations alone ("never corrupts the structure").
+	dom := []int{11, 12, 13, 14}
+	if members(obj, dom) != "" {
+		probe := t.New(0)
+		populate(probe, 3, 11)
+		before := members(probe, dom)
+		out := invoke(probe, c.method, 2, 7700)
+		d.Neutral = !strings.HasPrefix(out, "panic:") && members(probe, dom) == before
+	}
 	var points []string
 	for i := 0; i < rt.NumMethod(); i++ {
 		n := rt.Method(i).Name
+		if d.Neutral && (strings.Contains(n, "First") || strings.Contains(n, "Last") || strings.Contains(n, "LRU")) {
+			continue // order-dependent operations: a neutral operation may legitimately reorder (Sort)
+		}
 		if c10PointOps[n] && n != "Get" || n == "Get" && !strings.HasPrefix(t.Name, "Request") {
 			if _, ok := mkArgs(n, reflect.ValueOf(obj).MethodByName(n).Type(), 1, 1); ok {
 				points = append(points, n)
@@ -687,13 +703,25 @@ func c10WholeBody(rc *RunCtx) {
 			ms, ks = append(ms, points[simrt.Choose(len(points))]), append(ks, 11+simrt.Choose(4))
 		}
 		base := 8000 + 100*w
+		wid := w + 1
 		tasks = append(tasks, simrt.GoNamed("writer"+strconv.Itoa(w+1), func() {
 			for i := range ms {
-				invoke(obj, ms[i], ks[i], base+i)
+				op := &c10Op{Task: wid, Method: ms[i], Key: ks[i], Val: base + i, Phase: "writer"}
+				c10Record(d, op)
+				op.Call = simrt.Stamp()
+				op.Out = invoke(obj, ms[i], ks[i], base+i)
+				op.Return = simrt.Stamp()
 			}
 		}))
 	}
 	simrt.Settle(int64(5 * time.Second))
+	if d.Neutral {
+		op := &c10Op{Task: 0, Method: "MEMBERS", Phase: "writer"}
+		c10Record(d, op)
+		op.Call = simrt.Stamp()
+		op.Out = members(obj, dom)
+		op.Return = simrt.Stamp()
+	}
 	for _, tk := range tasks {
 		if !tk.Done() {
 			_, what := tk.Blocked()
@@ -703,6 +731,80 @@ func c10WholeBody(rc *RunCtx) {
 				break
 			}
 		}
+	}
+}
+
+// members renders what a dictionary or set holds for the given keys, order left aside ("" if
+// the type is neither).
+func members(obj interface{}, keys []int) string {
+	v := reflect.ValueOf(obj)
+	has := func(n string) bool { return v.MethodByName(n).IsValid() }
+	if !has("ContainsKey") && !has("Contains") {
+		return ""
+	}
+	var sb strings.Builder
+	sb.WriteString("size=" + invoke(obj, "Size", 0, 0))
+	for _, k := range keys {
+		if has("ContainsKey") {
+			sb.WriteString(fmt.Sprintf(" %d:%s/%s", k, invoke(obj, "ContainsKey", k, 0), invoke(obj, "Get", k, 0)))
+		} else {
+			sb.WriteString(fmt.Sprintf(" %d:%s", k, invoke(obj, "Contains", k, 0)))
+		}
+	}
+	return sb.String()
+}
+
+func c10WholeAfter(rc *RunCtx, res *simrt.Result) {
+	d := rc.Data.(*c10Data)
+	rc.Sample = d
+	if !d.Neutral || len(rc.Viols) > 0 {
+		return
+	}
+	var ops []porcupine.Operation
+	for i, op := range d.Ops {
+		if op.Phase != "writer" || op.Return == 0 {
+			continue
+		}
+		ops = append(ops, porcupine.Operation{ClientId: op.Task, Input: i, Call: op.Call, Output: op.Out, Return: op.Return})
+	}
+	dom := []int{11, 12, 13, 14}
+	model := porcupine.Model{
+		Init: func() interface{} { return "" },
+		Step: func(state, input, output interface{}) (bool, interface{}) {
+			st := state.(string)
+			idx := input.(int)
+			obj := c10Types[d.ti].New(0)
+			populate(obj, 3, 11)
+			if st != "" {
+				for _, s := range strings.Split(st, ",") {
+					j, _ := strconv.Atoi(s)
+					invoke(obj, d.Ops[j].Method, d.Ops[j].Key, d.Ops[j].Val)
+				}
+			}
+			o := d.Ops[idx]
+			var got string
+			if o.Method == "MEMBERS" {
+				got = members(obj, dom)
+			} else {
+				got = invoke(obj, o.Method, o.Key, o.Val)
+			}
+			ns := st
+			if ns != "" {
+				ns += ","
+			}
+			return got == output.(string), ns + strconv.Itoa(idx)
+		},
+	}
+	r := porcupine.CheckOperationsTimeout(model, ops, 20*time.Second)
+	if r == porcupine.Illegal {
+		var sb strings.Builder
+		for _, op := range d.Ops {
+			fmt.Fprintf(&sb, " [%s t%d %s(%d,%d)->%s @%d..%d]", op.Phase, op.Task, op.Method, op.Key, op.Val, op.Out, op.Call, op.Return)
+		}
+		rc.Violate("C10", "corruption", "content-changed-by:"+d.Label,
+			fmt.Sprintf("%s is content-neutral when run alone, but next to it the point operations and the final content are not explained by any order of the point operations alone:%s", d.Label, sb.String()))
+	} else if r == porcupine.Unknown {
+		rc.Inconclusive++
 	}
 }
 
